@@ -18,9 +18,14 @@ func init() { drivers["hist"] = driverHist }
 type hobj struct {
 	item ast.ItemNode
 	msg  *ast.DataMessage
+	ctrl ast.HSMSMessage
 }
 
 func (o hobj) observe() J {
+	if o.ctrl != nil {
+		h, _ := ast.VerifControlHeader(o.ctrl)
+		return J{"bytes": bytesJ(o.ctrl.ToBytes()), "type": typeOfMsg(o.ctrl), "hdr": bytesJ(h)}
+	}
 	if o.msg != nil {
 		r := observeMsg(o.msg)
 		r["hdr"] = []interface{}{o.msg.Name(), o.msg.StreamCode(), o.msg.FunctionCode(), o.msg.WaitBit(), o.msg.Direction(),
@@ -37,6 +42,10 @@ func (o hobj) digest() string {
 }
 
 func (o hobj) abs() J {
+	if o.ctrl != nil {
+		h, _ := ast.VerifControlHeader(o.ctrl)
+		return J{"kind": "ctrl", "abs": J{"hdr": bytesJ(h)}}
+	}
 	if o.msg != nil {
 		return J{"kind": "msg", "abs": projMsg(o.msg)}
 	}
@@ -115,8 +124,41 @@ func driverHist(c *Ctx) {
 				res["outcome"] = "new"
 			}
 			its, ms := items(), msgs()
-			kind := g.pick(14)
+			kind := g.pick(16)
 			switch {
+			case kind == 14:
+				// a control message from a caller-owned header slice (exactly 10 bytes, and longer / shorter ones)
+				h := make([]byte, []int{10, 10, 10, 4, 0}[g.pick(5)])
+				g.r.Read(h)
+				if len(h) == 10 {
+					h[4], h[5] = 0, []byte{1, 2, 3, 4, 5, 6, 7, 9}[g.pick(8)]
+				}
+				op = J{"k": "newctrl", "hdr": bytesJ(h)}
+				var m ast.HSMSMessage
+				if p, _ := try(func() { m = ast.NewHSMSControlMessage(h) }); p {
+					res = J{"outcome": "refused"}
+				} else {
+					objs = append(objs, hobj{ctrl: m})
+					res = objs[len(objs)-1].abs()
+					res["outcome"] = "new"
+				}
+				scribbleBytes(h)
+			case kind == 15:
+				// a control message decoded from a receive buffer that is reused afterwards
+				h := make([]byte, 10)
+				g.r.Read(h)
+				h[4], h[5] = 0, []byte{1, 2, 3, 4, 5, 6, 7, 9}[g.pick(8)]
+				buf := append([]byte{0, 0, 0, 10}, h...)
+				op = J{"k": "decodectrl", "hdr": bytesJ(h)}
+				m, ok := hsms.Parse(buf)
+				if !ok || m == nil {
+					res = J{"outcome": "refused"}
+				} else {
+					objs = append(objs, hobj{ctrl: m})
+					res = objs[len(objs)-1].abs()
+					res["outcome"] = "new"
+				}
+				scribbleBytes(buf)
 			case kind == 0 || len(its) == 0:
 				t := g.tree(g.pick(2), g.pick(2) == 0)
 				op = J{"k": "newitem"}
